@@ -20,7 +20,7 @@ fn run_wall_limit_s() -> u64 {
     let base = WALL_LIMIT.load(std::sync::atomic::Ordering::Relaxed);
     std::env::var("VERIF_RUN_LIMIT_S").ok().and_then(|s| s.parse().ok()).unwrap_or(base)
 }
-static WALL_LIMIT: std::sync::atomic::AtomicU64 = std::sync::atomic::AtomicU64::new(120);
+static WALL_LIMIT: std::sync::atomic::AtomicU64 = std::sync::atomic::AtomicU64::new(600);
 pub fn set_wall_limit(s: u64) {
     WALL_LIMIT.store(s, std::sync::atomic::Ordering::Relaxed);
 }
